@@ -21,6 +21,15 @@ CLAIMED.update({
          "Well-formed blocks only (assumed layout); <=3 tags, <=3 sections, names <=3 bytes, command line <=5 ASCII bytes; block at a concrete 8-aligned address (A-ADDR).", "7 C10"),
 })
 
+CLAIMED.update({
+ "C13": ("Bounded symbolic model checking of the real ObjectTree: one editing operation (newObject, append, appendAfter, detach, free) from an arbitrary well-formed tree state of K objects (every link field, live/freed flag and free-list head symbolic) - the post-state equals a reference list model and is well-formed again, so edit histories of any length follow by induction - plus Find on a fixed 8-node shape for every well-formed expression form (symbolic name segments, all prefix forms, from every scope) against an independent resolver, and for arbitrary byte strings (no crash, result is not-found or an existing node), and NumArgs/ArgAt against the list model.",
+         "WF(tree) and the documented operand preconditions are assumed for the step (arguments live, appended object detached and not an ancestor, root never re-parented); K = 4 (quick) / 5 (thorough); lookups use one fixed tree shape with concrete node names; expressions of up to 7 arbitrary bytes.", "7 C13"),
+ "C15": ("Bounded symbolic model checking of the real kfmt.fmtInt / Fprintf: every value of all ten integer types in base 8/10/16 (digits checked by Horner reconstruction; decimal decided through cvc5's integer encoding), padding for every int padLen, %s/%t/wrong-type markers, and the whole format scanner over every format string of L bytes against a reference formatter (inside the documented language exact equality, for every string no panic).",
+         "Not decided: 'performs no heap allocation' (a property of the compiler's escape analysis, not of input/output behaviour). Bounds: pad harness values <= 8 bits, strings <= 3 bytes, widths in formats <= 2 digits, format length 3 (quick) / 4 (thorough), fixed argument lists.", "7 C15"),
+ "C19": ("Bounded symbolic model checking of the real console drivers: VgaTextConsole Write/Fill/Scroll on grids up to 3x3 (4x3 thorough) with every cell and every 32-bit/8-bit argument symbolic, and VesaFbConsole Write/Fill/Scroll on a 2x2-cell grid with remainder row/column, pitch padding, logo offset, 8x2 and 9x2 synthetic fonts with symbolic glyph data, depth 8/16 (quick) or 8/15/16/24/32 with symbolic colour masks (thorough); every framebuffer byte is compared with an independent pixel-level oracle; any access outside the buffer is a violation.",
+         "Framebuffer = Go slice of exactly height*pitch bytes; in-grid coordinates are case-split (enumerated) and out-of-grid ones symbolic; characters < 4 with the synthetic 4-glyph fonts; one open known finding (KF-C19-1: framebuffer Scroll rewrites pitch padding / remainder rows).", "7 C19"),
+})
+
 NOT_APPLICABLE = {
  "C20": "FindRedirects is filepath.Walk + go/parser + ast.CommentMap + fmt over a source tree on disk; the inputs are directory trees and Go source text reached through OS calls, reflection and ~40k lines of standard library that the SSA executor cannot encode, and the non-reproducibility in question comes from runtime map-iteration randomisation, which is not a function of any solver-visible input. No bounded version is within reach of solver-based checking; see DESIGN.md 8.1.",
 }
